@@ -242,3 +242,12 @@ package chainntnfs
 //@   site store spendNtfnSet.rescanStatus nth 0: assert value == rescanComplete && rescanStatus != rescanComplete && rescanStatus != rescanPending && startHeight > n.currentHeight
 //@   site store spendNtfnSet.rescanStatus nth 1: assert value == rescanPending && rescanStatus != rescanComplete && rescanStatus != rescanPending && startHeight <= n.currentHeight
 //@   site call dispatchSpendDetails: assert arg(ntfn) == retn(newSpendNtfn, 0) && arg(details) == spendSet.details && spendSet.rescanStatus == rescanComplete
+//@
+//@ // ---- rewinding after a reorg: a block is disconnected from the notifier only once the block below it has been fetched, so a failed
+//@ // ---- backend call leaves notifier and caller at the same height (a notifier one block below the caller's best block refuses every
+//@ // ---- later rewind as out of order)
+//@ func RewindChain
+//@   props C14
+//@   loop * havoc
+//@   site call DisconnectTip: assert retn(GetBlockHash, 1) == nil && retn(GetBlockHeader, 1) == nil && arg(0) == txNotifier
+//@   site call GetBlockHeader: assert arg(1) == retn(GetBlockHash, 0) && retn(GetBlockHash, 1) == nil
